@@ -38,6 +38,8 @@ def guards_of(stack):
             out.append("GCheckNans")
         elif "is_based_on_variance" in src:
             out.append("GVarianceThreshold")
+        elif "not use_dask" in src.replace("(", "").replace(")", ""):
+            out.append("GNotDask")      # only reached for in-memory input (use_dask is checked in gen)
         elif "is_identity" in src or "use_pca" in src or "use_dask" in src or "use_exact" in src or "use_complex" in src:
             continue
         else:
@@ -111,9 +113,14 @@ def gen(repo):
             except TransError:
                 raise TransError("%s.%s not found" % (cls, mname))
             rows += scan(fn, cls, rel)
+    # `use_dask` must mean "the input is a dask array" wherever a guard relies on it
+    dtree, _ = parse_file(repo, "xeofs/linalg/decomposer.py")
+    dsrc = ast.unparse(find_func(find_class(dtree, "Decomposer"), "fit"))
+    if "use_dask = True if isinstance(X.data, DaskArray) else False" not in dsrc:
+        raise TransError("Decomposer.fit: definition of use_dask changed")
     out = ["(* generated by tools/py2coq/t7_lazy.py: dask force points on the fit paths and their guards *)",
            "From Coq Require Import String List Bool.", "Import ListNotations.", "Open Scope string_scope.", "",
-           "Inductive lguard := GAlways | GCompute | GCheckNans | GVarianceThreshold | GOther.", "",
+           "Inductive lguard := GAlways | GCompute | GCheckNans | GVarianceThreshold | GNotDask | GOther.", "",
            "Definition force_sites : list (string * list lguard) := ["]
     out.append(";\n".join('  ("%s", [%s])' % (site, "; ".join(g)) for site, g in rows))
     out.append("].")
